@@ -26,26 +26,7 @@ def r14_1_2_5(prog, tab):
     r2 = Rule("R14.2", "the result of an allocation is not dereferenced or indexed on a path where it is NULL", floor=60)
     r5 = Rule("R14.5", "no `x = realloc(x, n)` (the block is lost when realloc fails)", floor=10)
     summ = ownership.Summaries(prog, tab)
-    # allocating helpers: functions that return a locally allocated block (fixpoint over two rounds)
-    for _round in range(3):
-        grew = False
-        for f in prog.funcs.values():
-            if not f.ret_type.rstrip().endswith("*") or f.name in summ.alloc_funcs:
-                continue
-            for b, i, e in f.calls():
-                if not summ.is_alloc_call(e):
-                    continue
-                group, esc = ownership.holders_of_site(f, b, i, e)
-                if not group or esc:
-                    continue
-                # does some return hand back a holder that still owns the block (not linked anywhere else)?
-                finds, _, _ = ownership.walk_site(f, b, i, e, summ, "owned")
-                if any(x["kind"] == "returned-owned" for x in finds):
-                    summ.alloc_funcs.add(f.name)
-                    grew = True
-                    break
-        if not grew:
-            break
+    summ.close_alloc_funcs()
     r1.note("allocating helpers: %s" % sorted(summ.alloc_funcs))
     r1.note("releasing helpers: %s" % {k: sorted(v) for k, v in sorted(summ.release.items())})
     exc = {(x["rule"], x["function"], x["key"]): x["reason"] for x in tab.get("exceptions", [])}
